@@ -3,6 +3,7 @@ package main
 import (
 	"fmt"
 	"math/rand/v2"
+	"slices"
 	"sort"
 	"strconv"
 	"strings"
@@ -399,6 +400,19 @@ func evalC13ST(s, sep string) Result {
 				direct = fail("splittrimmed-ref", "SplitTrimmed(%q, %q) = %q, want %q", s, sep, got, want)
 			}
 		}
+	}
+	if direct == "ok" {
+		// the result is the caller's: it writes into it (and into its spare capacity) and splits the
+		// same input again
+		first := slices.Clone(got)
+		for i := range got {
+			got[i] = "rewritten"
+		}
+		_ = append(got[:0], "a", "b", "c", "d", "e", "f", "g", "h")[:0]
+		if again := stringutil.SplitTrimmed(s, sep); !slices.Equal(again, first) || again == nil {
+			direct = fail("splittrimmed-again", "SplitTrimmed(%q, %q) = %q, and after the caller had rewritten that result it gives %q", s, sep, first, again)
+		}
+		got = first
 	}
 	class := ""
 	switch {
